@@ -35,7 +35,11 @@ RULE = ("root datasets of 5..40 events (three dyadic scalar columns with "
         "the data so that levels shrink, empty and refill and events drop "
         "out and come back; 45% of the cases are sliding-window scenarios "
         "(a window of root events moves on a random level while events are "
-        "excluded on the levels below, and is opened again at the end); a case is non-trivial when depth >= 2 is "
+        "excluded on the levels below, and is opened again at the end), 15% "
+        "sibling histories (two branches below 0..2 shared levels, edits and "
+        "rejuvenate through either branch in alternation; modelled by "
+        "sib_run), 8% chains with polygon filters and 'limit events' on any "
+        "level (oracle only); a case is non-trivial when depth >= 2 is "
         "reached, at least one manual exclusion was hidden and came back, "
         "and at least two different masks were seen on one level; distinct = "
         "different case dict")
@@ -54,6 +58,11 @@ TRUSTED_BASE = [
     "the non-scalar features are represented by one image-id column read "
     "through the modelled index maps; mask, contour and trace use the same "
     "code in events.py and are compared by the oracle only",
+    "polygon filters and 'limit events' on intermediate levels: oracle "
+    "only (the masks are those of the real code; child-is-view and the "
+    "manual exclusions are judged by composing them); siblings: modelled "
+    "as two chains sharing their ancestors (sib_step applies the chain "
+    "operation to one of them)",
     "model of the root dataset: a plain Filter has no _root_ids / "
     "_parent_hash; the model gives them the values of an all-selected child "
     "(never read by the modelled code paths)",
@@ -118,8 +127,14 @@ def float2f(v):
 # generator
 # --------------------------------------------------------------------------
 def gen_case(rng, thorough=False, hazard=None):
-    if not hazard and rng.random() < 0.45:
-        return gen_scenario(rng, thorough)
+    if not hazard:
+        r = rng.random()
+        if r < 0.35:
+            return gen_scenario(rng, thorough)
+        if r < 0.50:
+            return gen_sib(rng, thorough)
+        if r < 0.58:
+            return gen_poly(rng, thorough)
     n = rng.choice([5, 6, 7, 8, 10, 12, 16, 24, 40]) if rng.random() < .8 \
         else rng.randint(5, 40)
     cols = []
@@ -228,6 +243,74 @@ def gen_scenario(rng, thorough=False):
                 hazard=False, ops=ops)
 
 
+def gen_sib(rng, thorough=False):
+    """Sibling children: two branches below shared ancestors, refreshed in
+    alternation (they share the parent object and its filter)."""
+    n = rng.choice([6, 8, 10, 12, 16])
+    cols = [[[0, i] for i in range(n)],
+            [[0, rng.randint(0, 12)] for _ in range(n)],
+            [[0, (i * 3) % 5] for i in range(n)]]
+    nshared = rng.choice([0, 0, 1, 2])           # shared levels below root
+    ops = [[6, 0, 0, 0, 0] for _ in range(nshared)]
+    if nshared and rng.random() < 0.5:
+        ops.append([1, nshared, rng.randint(0, 40), 0, 0])
+    ops.append([7, 0, 0, 0, 0])
+    da = rng.choice([1, 1, 2])
+    db = rng.choice([1, 1, 2])
+    ops += [[6, 0, 0, 0, 0] for _ in range(da)]
+    ops += [[16, 0, 0, 0, 0] for _ in range(db)]
+    depth = [nshared + da, nshared + db]
+    w = max(2, n // 2)
+    for _ in range(rng.randint(4, 10 if thorough else 7)):
+        br = rng.randint(0, 1)
+        t = 10 * br
+        r = rng.random()
+        if r < 0.35:
+            # window on a shared level or on the branch
+            lvl = rng.randint(0, depth[br] - 1)
+            a = rng.randint(0, n - 1)
+            ops.append([t, lvl, 0, a, min(n - 1, a + rng.randint(1, w))])
+        elif r < 0.70:
+            lvl = rng.randint(1, depth[br])
+            ops.append([t + 1, lvl, rng.randint(0, 60),
+                        0 if rng.random() < 0.8 else 1, 0])
+        elif r < 0.78:
+            ops.append([t + 2, rng.randint(0, depth[br]), rng.randint(0, 1),
+                        rng.randint(0, 50), 0])
+        elif r < 0.84:
+            ops.append([t + 4, rng.randint(0, depth[br]), rng.randint(0, 1),
+                        0, 0])
+        else:
+            ops.append([t + 3, 0, 0, 0, 0])
+        if rng.random() < 0.45:
+            ops.append([10 * rng.randint(0, 1) + 3, 0, 0, 0, 0])
+    for lvl in range(nshared + 1):
+        ops.append([0, lvl, 0, -1, n + 1])
+    ops += [[3, 0, 0, 0, 0], [13, 0, 0, 0, 0], [3, 0, 0, 0, 0]]
+    return dict(n=n, cols=cols, extra=rng.choice([0, 0, 1]), hazard=False,
+                family="sib", ops=ops)
+
+
+def gen_poly(rng, thorough=False):
+    """Polygon filters and 'limit events' on any level (oracle only: the
+    masks are taken from the real code, child-is-view and the manual
+    exclusions are judged by composing them)."""
+    case = gen_scenario(rng, thorough)
+    n = case["n"]
+    depth = sum(1 for o in case["ops"] if o[0] == 6)
+    ops = []
+    for o in case["ops"]:
+        ops.append(o)
+        if o[0] == 3 and rng.random() < 0.6:
+            lvl = rng.randint(0, depth)
+            if rng.random() < 0.5:
+                a = rng.randint(0, n - 1)
+                ops.append([8, lvl, a, a + rng.randint(1, n), rng.randint(0, 12)])
+            else:
+                ops.append([9, lvl, rng.choice([0, 1, 2, 3, n // 2, n]), 0, 0])
+    return dict(case, family="poly", ops=ops, extra=rng.choice([0, 0, 1]))
+
+
 def gen_range(rng, lvl, cols):
     f = rng.choice([0, 0, 0, 1, 1, 2, 3, 4])
     if f < 3:
@@ -325,8 +408,26 @@ def feat_list(data, kind):
     raise ValueError(kind)
 
 
+class Node:
+    """one dataset of the hierarchy with the oracle's knowledge about it"""
+
+    def __init__(self, ds, vis):
+        self.ds = ds
+        self.excl = set()        # root ids the user excluded here
+        self.ever = set()        # ... ever excluded here
+        self.vis_ref = vis       # root ids of its events at its last refresh
+        self.fresh = True        # refreshed after all of its ancestors
+        self.seen_hidden = set()
+        self.last_mask = None
+
+
 def run_impl(case):
-    """Returns (flat, failure or None, stats dict)."""
+    """Returns (flat, failure or None, stats dict).
+
+    Families: "chain" (default), "sib" (two branches below shared ancestors:
+    tag + 10 addresses branch b, tag 7 moves branch a into the shared part),
+    "poly" (chain with polygon filters, tag 8, and 'limit events', tag 9, on
+    any level; oracle only)."""
     import warnings
     import numpy as np
     import dclab
@@ -335,7 +436,9 @@ def run_impl(case):
     _register()
     n = case["n"]
     root = make_root(case)
-    chain = [root]
+    rootnode = Node(root, list(range(n)))
+    shared = [rootnode]          # root first
+    branch = [[], []]            # the two branches below the shared part
     flat = []
     fail = [None]
     stats = dict(maxdepth=0, hidden_back=0, mask_changes=0, obs=0)
@@ -344,102 +447,117 @@ def run_impl(case):
         if fail[0] is None:
             fail[0] = msg
 
-    # oracle state: user's exclusions in root ids, per level; vis_ref[l] =
-    # root ids of the events of level l at its last refresh (what the user
-    # sees there, and what filter.manual[i] refers to)
-    excl = [set()]
-    ever = [set()]
-    vis_ref = [list(range(n))]
-    fresh = [True]           # level refreshed after its ancestors
-    seen_hidden = [set()]    # excluded ids that were seen hidden at an obs
-    last_masks = {}
-
-    def refreshed(upto):
-        vis = root_ids_of(masks_of(chain[:upto + 1]), n)
+    def refreshed(chain, upto):
+        """chain[0..upto] were refreshed in this order"""
+        vis = root_ids_of(masks_of([nd.ds for nd in chain[:upto + 1]]), n)
         if vis is None:
             oracle_fail("after op %d: the filter sizes of levels 0..%d do "
                         "not match the event counts" % (opi, upto))
             return
+        done = set()
         for k in range(upto + 1):
-            vis_ref[k] = vis[k]
-            fresh[k] = True
+            chain[k].vis_ref = vis[k]
+            chain[k].fresh = True
+            done.add(id(chain[k]))
+        if upto == 0:
+            return
+        # everything below a refreshed dataset that was not refreshed
+        # itself is now out of date
+        for br in (0, 1):
+            for nd in branch[br]:
+                if id(nd) not in done:
+                    nd.fresh = False
+        for k, nd in enumerate(shared):
+            if id(nd) not in done and k > 0:
+                nd.fresh = False
 
     for opi, op in enumerate(ops_of(case)):
         tag, a, b, c, d = op
+        br, tag = (tag // 10) % 2, tag % 10
+        chain = shared + branch[br]
         depth = len(chain) - 1
         try:
             if tag == 0:
                 lvl = a % (depth + 1)
                 name = (GIVEN + TEMPS)[b % NSLOT]
-                ds = chain[lvl]
+                ds = chain[lvl].ds
                 ds.config["filtering"][name + " min"] = c / 8.0
                 ds.config["filtering"][name + " max"] = d / 8.0
             elif tag == 1:
                 lvl = a % (depth + 1)
-                ds = chain[lvl]
-                man = ds.filter.manual
-                if len(man) != len(vis_ref[lvl]):
+                nd = chain[lvl]
+                man = nd.ds.filter.manual
+                if len(man) != len(nd.vis_ref):
                     oracle_fail("op %d: filter.manual of level %d has size "
                                 "%d, the level had %d events at its last "
                                 "refresh" % (opi, lvl, len(man),
-                                             len(vis_ref[lvl])))
+                                             len(nd.vis_ref)))
                 elif len(man):
                     i = b % len(man)
-                    r = vis_ref[lvl][i]
+                    r = nd.vis_ref[i]
                     if c:
-                        excl[lvl].discard(r)
+                        nd.excl.discard(r)
                     else:
-                        excl[lvl].add(r)
-                        ever[lvl].add(r)
+                        nd.excl.add(r)
+                        nd.ever.add(r)
                     man[i] = bool(c)
             elif tag == 2:
                 lvl = a % (depth + 1)
-                ds = chain[lvl]
+                nd = chain[lvl]
                 name = TEMPS[b % 2]
-                m = len(ds)
+                m = len(nd.ds)
                 data = np.array([f2float(tval(c, j)) for j in range(m)],
                                 dtype=np.float64)
                 try:
-                    dclab.set_temporary_feature(ds, name, data)
+                    dclab.set_temporary_feature(nd.ds, name, data)
                     flat += [2, 0]
                     if lvl:
-                        refreshed(lvl)
+                        refreshed(chain, lvl)
                 except IndexError:
                     # only legitimate on a level that was not refreshed
                     # after one of its ancestors was
                     flat += [2, 1]
-                    if fresh[lvl]:
+                    if nd.fresh:
                         oracle_fail("op %d: set_temporary_feature on level "
                                     "%d raised IndexError" % (opi, lvl))
-                if lvl:
-                    for k in range(lvl + 1, depth + 1):
-                        fresh[k] = False
             elif tag == 3:
                 if depth:
-                    chain[-1].rejuvenate()
+                    chain[-1].ds.rejuvenate()
                 else:
                     root.apply_filter()
-                refreshed(depth)
-                flat += observe(case, chain, oracle_fail, excl, ever,
-                                seen_hidden, stats, last_masks, opi)
+                refreshed(chain, depth)
+                flat += observe(case, chain, oracle_fail, stats, opi)
             elif tag == 4:
                 lvl = a % (depth + 1)
-                chain[lvl].config["filtering"]["enable filters"] = bool(b)
+                chain[lvl].ds.config["filtering"]["enable filters"] = bool(b)
             elif tag == 5:
                 lvl = a % (depth + 1)
-                chain[lvl].config["filtering"]["remove invalid events"] = \
-                    bool(b)
+                chain[lvl].ds.config["filtering"]["remove invalid events"] \
+                    = bool(b)
             elif tag == 6:
                 if depth < MAXDEPTH:
-                    chain.append(dclab.new_dataset(chain[-1]))
-                    len(chain[-1])       # fills the _length cache
-                    excl.append(set())
-                    ever.append(set())
-                    seen_hidden.append(set())
-                    vis_ref.append([])
-                    fresh.append(True)
-                    refreshed(depth + 1)
+                    child = dclab.new_dataset(chain[-1].ds)
+                    len(child)           # fills the _length cache
+                    nd = Node(child, [])
+                    branch[br].append(nd)
+                    refreshed(chain + [nd], depth + 1)
                     stats["maxdepth"] = max(stats["maxdepth"], depth + 1)
+            elif tag == 7:
+                if not branch[1]:
+                    shared = shared + branch[0]
+                    branch = [[], []]
+            elif tag == 8:
+                # polygon filter (deform, area_um) on a level; oracle only
+                lvl = a % (depth + 1)
+                x0, x1 = sorted([b / 8.0, c / 8.0])
+                pf = dclab.PolygonFilter(
+                    axes=(GIVEN[0], GIVEN[1]),
+                    points=[[x0 - .01, -100], [x1 + .01, -100],
+                            [x1 + .01, d / 8.0 + .01], [x0 - .01, 100]])
+                chain[lvl].ds.polygon_filter_add(pf)
+            elif tag == 9:
+                lvl = a % (depth + 1)
+                chain[lvl].ds.config["filtering"]["limit events"] = int(b)
         except (Exception, hfilter.HierarchyFilterError) as e:
             flat += [99]
             oracle_fail("op %d %r raised %r" % (opi, op, e))
@@ -447,21 +565,27 @@ def run_impl(case):
     # the user's intent as tracked by the oracle, root first (compared with
     # the specification spec_run of the Coq development)
     flat += [-5]
-    for k in range(len(chain)):
-        flat += sorted(excl[k]) + [-7] + sorted(ever[k]) + [-7]
+    for nd in shared + branch[0]:
+        flat += sorted(nd.excl) + [-7] + sorted(nd.ever) + [-7]
+    if case.get("family") == "sib":
+        flat += [-6]
+        for nd in shared + branch[1]:
+            flat += sorted(nd.excl) + [-7] + sorted(nd.ever) + [-7]
     return flat, fail[0], stats
 
 
-def observe(case, chain, oracle_fail, excl, ever, seen_hidden, stats,
-            last_masks, opi):
+def observe(case, nodes, oracle_fail, stats, opi):
     import numpy as np
     n = case["n"]
     flat = []
+    chain = [nd.ds for nd in nodes]
     masks = masks_of(chain)
     vis = root_ids_of(masks, n)
     stats["obs"] += 1
     root = chain[0]
     for lvl, ds in enumerate(chain):
+        nd = nodes[lvl]
+        excl, ever, seen_hidden = nd.excl, nd.ever, nd.seen_hidden
         length = int(len(ds))
         man = np.array(ds.filter.manual, dtype=bool).tolist()
         flat += [100 + lvl, length] + [int(x) for x in masks[lvl]] + [-7] \
@@ -469,10 +593,9 @@ def observe(case, chain, oracle_fail, excl, ever, seen_hidden, stats,
         if lvl >= 1:
             flat += sorted(set(int(x) for x in ds.filter._man_root_ids))
         flat += [-7]
-        key = (lvl,)
-        if key in last_masks and last_masks[key] != masks[lvl]:
+        if nd.last_mask is not None and nd.last_mask != masks[lvl]:
             stats["mask_changes"] += 1
-        last_masks[key] = masks[lvl]
+        nd.last_mask = masks[lvl]
         # ---- correspondence observables: columns
         for s, name in scalar_slots(ds):
             col = feat_list(ds[name], "scalar")
@@ -532,28 +655,26 @@ def observe(case, chain, oracle_fail, excl, ever, seen_hidden, stats,
                 if msg:
                     oracle_fail(where + msg)
             # manual exclusions in root coordinates
-            if True:
-                for i, r in enumerate(vis[lvl]):
-                    if r in excl[lvl] and man[i]:
-                        oracle_fail(where + "root event %d was manually "
-                                    "excluded on this level but "
-                                    "filter.manual[%d] is True" % (r, i))
-                    if r not in ever[lvl] and not man[i]:
-                        oracle_fail(where + "root event %d was never "
-                                    "excluded on this level but "
-                                    "filter.manual[%d] is False" % (r, i))
-                visset = set(vis[lvl])
-                for r in excl[lvl]:
-                    if r in visset and r in seen_hidden[lvl]:
-                        stats["hidden_back"] += 1
-                        seen_hidden[lvl].discard(r)
-                    elif r not in visset:
-                        seen_hidden[lvl].add(r)
+            for i, r in enumerate(vis[lvl]):
+                if r in excl and man[i]:
+                    oracle_fail(where + "root event %d was manually "
+                                "excluded on this level but "
+                                "filter.manual[%d] is True" % (r, i))
+                if r not in ever and not man[i]:
+                    oracle_fail(where + "root event %d was never "
+                                "excluded on this level but "
+                                "filter.manual[%d] is False" % (r, i))
+            visset = set(vis[lvl])
+            for r in excl:
+                if r in visset and r in seen_hidden:
+                    stats["hidden_back"] += 1
+                    seen_hidden.discard(r)
+                elif r not in visset:
+                    seen_hidden.add(r)
         else:
-            if True:
-                want = [i not in excl[0] for i in range(n)]
-                if man != want:
-                    oracle_fail(where + "root manual filter changed")
+            want = [i not in excl for i in range(n)]
+            if man != want:
+                oracle_fail(where + "root manual filter changed")
     return flat
 
 
@@ -669,21 +790,26 @@ def run(run):
         run.count("n<=%d" % (10 * ((c["n"] + 9) // 10)))
         run.count("hidden-came-back", stats["hidden_back"])
         run.count("observations", stats["obs"])
+        run.count("family:" + c.get("family", "chain"))
         if c.get("hazard"):
             run.count("hazard-cases")
         if c.get("extra"):
             run.count("with-mask-contour-trace")
         for o in c["ops"]:
             run.count(["op:range", "op:manual", "op:temp", "op:rejuvenate",
-                       "op:enable", "op:rminvalid", "op:grow"][o[0]])
+                       "op:enable", "op:rminvalid", "op:grow", "op:share",
+                       "op:polygon", "op:limit"][o[0] % 10])
         if fail is not None:
             run.oracle_failure(c, fail, classify(c, fail))
-    model = common.coq_map(run.scratch, "c04", HEADER, "run_both",
-                           [render(c) for c in cases], shard=20)
-    for c, m, (flat, fail, stats) in zip(cases, model, results):
-        run.corr_checked += 1
-        if m != flat:
-            run.mismatch(c, m, flat)
+    for fam, fn in (("chain", "run_both"), ("sib", "run_sib")):
+        idx = [i for i, c in enumerate(cases)
+               if c.get("family", "chain") == fam]
+        model = common.coq_map(run.scratch, "c04" + fam, HEADER, fn,
+                               [render(cases[i]) for i in idx], shard=20)
+        for i, m in zip(idx, model):
+            run.corr_checked += 1
+            if m != results[i][0]:
+                run.mismatch(cases[i], m, results[i][0])
 
 
 # --------------------------------------------------------------------------
